@@ -95,7 +95,7 @@ def run(ctx):
         got = set()
         for s in d:
             if s[0] == "param":
-                pth = tuple(x for x in s[2] if x not in ("#d", "#cmp"))
+                pth = tuple(x for x in s[2] if x not in ("#d", "#cmp", "#sel"))
                 # Option<f64> payload of angle: drop 'as:Some' remnants
                 pth = tuple(x for x in pth if not x.startswith("as:"))
                 if pth and pth[-1] == "0" and f is from_inst and s[1] == 3:
